@@ -7,7 +7,7 @@
    exactly when the expression does. *)
 From Coq Require Import FMapPositive.
 From Verif Require Import GoInt GoBits Facts_alu Facts_limits VmBase Facts_vmexec AluM Alu_proofs VmExecM MiniGoSem EmitExprM.
-From Verif Require Import LimitsM Limits_sweeps VmAlu_proofs.
+From Verif Require Import VmAlu_proofs.
 Open Scope Z_scope.
 
 Arguments wrap : simpl never.
@@ -112,6 +112,8 @@ Proof.
   rewrite rd_int_set_pc, Hx. cbn [xbind]. rewrite wr_int_ok by (apply valid_ireg_set_pc, Hz). reflexivity.
 Qed.
 
+Definition oz_eqb (a : option Z) (b : Z) : bool := match a with Some x => x =? b | None => false end.
+
 Lemma oz_eqb_true a b : oz_eqb a b = true -> a = Some b.
 Proof. destruct a; cbn; [intros H; apply Z.eqb_eq in H; congruence|discriminate]. Qed.
 
@@ -142,13 +144,21 @@ Qed.
    statement of valueindex_roundtrip with its unfolded form *)
 Local Strategy 1000 [gen_c_encodeValueIndex gen_r_decodeValueIndex].
 
+(* an integer constant index survives encodeValueIndex / decodeValueIndex: every index below 2^14 (exhaustive) *)
+Definition load_rt (i : Z) : bool :=
+  match gen_c_encodeValueIndex (Some gen_c_intRegister) (Some i) with
+  | [a; b] => match gen_r_decodeValueIndex a b with [t'; i'] => oz_eqb t' gen_c_intRegister && oz_eqb i' i | _ => false end
+  | _ => false
+  end.
+Lemma load_rt_all : allb 16384 0 load_rt = true.
+Proof. vm_compute. reflexivity. Qed.
+
 Lemma decode_of_encode idx a b :
   gen_c_encodeValueIndex (Some gen_c_intRegister) (Some idx) = [Some a; Some b] -> 0 <= idx < 16384 ->
   gen_r_decodeValueIndex (Some a) (Some b) = [Some gen_c_intRegister; Some idx].
 Proof.
   intros Henc Hidx.
-  assert (H0 : 0 <= gen_c_intRegister < 4) by (unfold gen_c_intRegister; lia).
-  pose proof (valueindex_roundtrip gen_c_intRegister idx H0 Hidx) as Hrt.
+  pose proof (allb_spec _ _ _ load_rt_all idx ltac:(lia)) as Hrt.
   refine (rt_generic (gen_c_encodeValueIndex (Some gen_c_intRegister) (Some idx)) gen_r_decodeValueIndex gen_c_intRegister idx a b Henc _).
   exact Hrt.
 Qed.
